@@ -243,3 +243,52 @@ def astype(T, vals, todt):
 
     out = [val(v, T) for v in vals]
     return typ(T), out, ok[0]
+
+
+def matches_upto_cast(v, F, o, R, mergebool):
+    """is the observed value `o` (of result element type R) the value `v` (of operand element type F) 'unchanged up to
+    the numeric cast'?  Every numeric leaf of `o` must be numpy's cast of the corresponding leaf of `v` into the dtype the
+    result type has at that position (one of the members, when R is a union); a bool may only have become a number when
+    mergebool is set; structure, strings, missing values and record fields must be identical."""
+    if F[0] == "option":
+        if v is None:
+            return o is None
+        return matches_upto_cast(v, F[1], o, R, mergebool)
+    if v is None:
+        return o is None
+    if o is None:
+        return False
+    if R[0] == "option":
+        return matches_upto_cast(v, F, o, R[1], mergebool)
+    if R[0] == "union":
+        return any(matches_upto_cast(v, F, o, m, mergebool) for m in R[1])
+    k = F[0]
+    if k == "union":
+        from akgen.gen import conforms
+        return any(conforms(t, v) and matches_upto_cast(v, t, o, R, mergebool) for t in F[1])
+    if k == "prim":
+        if R[0] != "prim":
+            return False
+        if _isbool(F) != _isbool(R) and not (mergebool and _isbool(F)):
+            return False
+        try:
+            c = cast_scalar(v, F[1], R[1])
+        except OverflowError:
+            return False     # v is not a value of this member of a union source type (it belongs to another numeric member)
+        return M.same_value(o, c, strict_bool=True)
+    if k in ("list", "regular"):
+        if R[0] not in ("list", "regular") or not isinstance(o, list) or len(o) != len(v):
+            return False
+        return all(matches_upto_cast(x, F[1], y, R[1], mergebool) for x, y in zip(v, o))
+    if k == "record":
+        if R[0] != "record" or bool(R[2]) != bool(F[2]) or R[3] != F[3] or len(R[1]) != len(F[1]):
+            return False
+        if F[2]:
+            return isinstance(o, tuple) and all(matches_upto_cast(x, ft, y, rt, mergebool) for x, y, (_, ft), (_, rt) in zip(v, o, F[1], R[1]))
+        rmap = dict((n, t) for n, t in R[1])
+        if not isinstance(o, dict) or set(rmap) != set(n for n, _ in F[1]):
+            return False
+        return all(matches_upto_cast(v[n], ft, o[n], rmap[n], mergebool) for n, ft in F[1])
+    if k in ("string", "bytes"):
+        return R[0] == k and M.same_value(o, v)
+    return False
